@@ -757,6 +757,18 @@ def r_bfs(ctx):
             if isinstance(x.stmt.iter, ast.Name):
                 front = x.stmt.iter.id
         rebind = [d for d in f.defs if front and d.name == front and d.node in body and d.kind == 'assign']
+        if not front:
+            # comprehension form: X = [... for v in X ...] inside the level loop
+            for d in f.defs:
+                if d.node in body and d.kind == 'assign' and isinstance(d.value, (ast.ListComp, ast.Call)):
+                    src = d.value
+                    names = {x.id for x in ast.walk(src) if isinstance(x, ast.Name)}
+                    if d.name in names:
+                        front, rebind = d.name, [d]
+        if not front:
+            run.undecided('R-BFS', f, 'depth-loop#%d:frontier-rebound' % (i + 1), nd.lineno,
+                          'the frontier of this level loop is not recognised')
+            continue
         run.check(bool(front and rebind), 'R-BFS', f, 'depth-loop#%d:frontier-rebound' % (i + 1), nd.lineno,
                   'the frontier is replaced by the new level each round',
                   'the frontier of the breadth-first search is not rebound inside the level loop', inputs='depth >= 2')
